@@ -153,8 +153,8 @@ impl LinePrinter {
         if current < self.start || current >= self.end {
             // pass if it is hidden
         } else if current < self.start + 2 && self.start > 0 {
-            // print left ".."
-            for _ in 0..min(w, current - self.start + 1) {
+            // print left "..", never beyond the end of the container
+            for _ in 0..min(min(w, current - self.start + 1), self.end - current) {
                 self.print_ch_to_canvas(canvas, '.', attr, skip);
             }
         } else if self.end - current <= 2 && (self.text_width > self.end) {
